@@ -216,3 +216,33 @@ Theorem C02_callbacks_give_reference_canvas : forall nocursor es l,
   size_opt (screen l) = fold_left ref_size h None.
 Proof. exact callbacks_give_reference_canvas. Qed.
 Print Assumptions C02_callbacks_give_reference_canvas.
+
+(** The state-changing pseudo-rectangles, one handler invocation each: DesktopSize makes exactly one
+    updateDesktopSize(w, h) and changes the geometry later captures ask for (C06); LastRect ends the
+    update whatever count was announced and is not listed among its rectangles; the QEMU extended-key
+    marker switches the negotiated flag and is not listed either. *)
+Theorem C02_desktopsize_roundtrip : forall s x y w h tail s2 p2 es2 es r n,
+  u16ok x -> u16ok y -> u16ok w -> u16ok h -> rects s <> 0 ->
+  let s1 := set height (fun _ => h) (set width (fun _ => w) (enter_rect s x y w h)) in
+  do_connection s1 = Ok s2 (Some p2) es2 ->
+  Drain s2 p2 tail es r n ->
+  Drain s PRect (rect_hdr x y w h DESKTOPSIZE_ENC ++ tail) ([EDesktopSize w h] ++ es2 ++ es) r (S n).
+Proof. exact desktopsize_roundtrip. Qed.
+Print Assumptions C02_desktopsize_roundtrip.
+
+Theorem C02_lastrect_roundtrip : forall s x y w h tail s2 p2 es2 es r n,
+  u16ok x -> u16ok y -> u16ok w -> u16ok h ->
+  do_connection (set rects (fun _ => 0) s) = Ok s2 (Some p2) es2 ->
+  Drain s2 p2 tail es r n ->
+  Drain s PRect (rect_hdr x y w h LASTRECT_ENC ++ tail) (es2 ++ es) r (S n).
+Proof. exact lastrect_roundtrip. Qed.
+Print Assumptions C02_lastrect_roundtrip.
+
+Theorem C02_qemu_key_marker_roundtrip : forall s x y w h tail s2 p2 es2 es r n,
+  u16ok x -> u16ok y -> u16ok w -> u16ok h -> rects s <> 0 ->
+  let s1 := enter_rect s x y w h in
+  do_connection (set rectpos (fun _ => removelast (rectpos s1)) (set qemu_neg (fun _ => true) s1)) = Ok s2 (Some p2) es2 ->
+  Drain s2 p2 tail es r n ->
+  Drain s PRect (rect_hdr x y w h QEMU_KEY_ENC ++ tail) (es2 ++ es) r (S n).
+Proof. exact qemu_key_roundtrip. Qed.
+Print Assumptions C02_qemu_key_marker_roundtrip.
